@@ -19,7 +19,7 @@ RULE = ('random positions world-wide inside the TM band (NSW longitudes for ISG)
         'single conversion (cart, geo, tm, notation; all 6x6 notation pairs) and random chains of length 2..8 over {cart, geo, tm, '
         'notation}.  Judged: numbers identical to the functional conversion; heights preserved by geo<->tm; N = h - H in every '
         'conversion to or from Cartesian; notation() keeps the position (1e-8") and the heights; a chain returns to the start within '
-        '0.3 mm.  distinct = operation x source type x target notation x height-presence pattern x ellipsoid x projection')
+        '0.3 mm.  distinct = operation x source type x target notation x height-presence pattern x ellipsoid x projection The heights of every conversion result are edited and restored while the source\'s snapshot is compared; 8 % of the chains start at satellite / ocean-floor heights and run between Cartesian and geographic form only.')
 ASSUMPTIONS = ['the functional conversions themselves are judged by C01/C02/C03/C08', 'angle_exact for the denoted latitude/longitude']
 N = {'quick': 600, 'thorough': 10000}
 SHARDS = {'quick': 16, 'thorough': 32}
